@@ -44,3 +44,32 @@ V('C03', 'readonly-not-settable', 'edb/schema/pointers.py', 'edb.schema.pointers
         bool,''', 'C03.R1', 'Pointer.readonly')
 V('C03', 'neg-rename-handler-local', N, M + 'normalize_SelectQuery',
   '    # Process the result expression\n', '    # Process the result expression (may define an alias)\n', None)
+
+N = 'edb/edgeql/compiler/normalization.py'
+V('C03', 'alias-visible-in-own-definition', N, 'edb.edgeql.compiler.normalization._normalize_with_block',
+  '''            normalize(
+                alias.expr,
+                schema=schema,
+                modaliases=modaliases,
+                localnames=localnames,
+            )
+            newaliases.append(alias)
+            localnames = {alias.alias} | localnames
+''', '''            localnames = {alias.alias} | localnames
+            normalize(
+                alias.expr,
+                schema=schema,
+                modaliases=modaliases,
+                localnames=localnames,
+            )
+            newaliases.append(alias)
+''', 'C03.R2', '_normalize_with_block:definition-before-alias')
+V('C03', 'pointer-decision-before-bases', 'edb/edgeql/codegen.py', 'edb.edgeql.codegen.EdgeQLSourceGenerator.visit_CreateConcretePointer',
+  '''        node = self._ddl_add_pointer_bases(node)
+
+''', '''        _pure = len(node.commands) == 0
+        node = self._ddl_add_pointer_bases(node)
+
+''', 'C03.R3ddl', 'visit_CreateConcretePointer:_ddl_add_pointer_bases')
+V('C03', 'index-except-dep-from-on-expr', 'edb/edgeql/declarative.py', 'edb.edgeql.declarative.trace_Index',
+  'exprs.append(ExprDependency(expr=node.except_expr))', 'exprs.append(ExprDependency(expr=node.expr))', 'C03.R6', 'CreateConcreteIndex.except_expr')
